@@ -289,9 +289,8 @@ pub mod fussy_token {
             if to == blocked {
                 panic!("recipient refused");
             }
-            if amount < 0 {
-                panic!("negative amount");
-            }
+            // (deliberately no check of the amount's sign: the gas service's own "positive amount"
+            // rule is what has to stop a negative payment for such a token)
             let fb = Self::balance(env.clone(), from.clone());
             if fb < amount {
                 panic!("insufficient balance");
